@@ -399,7 +399,7 @@ def leafClassU : Scalar → String
   | .str => "StringUnmarshaller"
   | .bytes => "BytesUnmarshaller"
   | .uuid => "UUIDUnmarshaller"
-  | .path => "CastUnmarshaller"
+  | .path => "PathUnmarshaller"
   | .pattern => "PatternUnmarshaller"
   | .date => "DateUnmarshaller"
   | .datetime => "DateTimeUnmarshaller"
